@@ -15,6 +15,7 @@ TEXTS = ["", "a", "bb", "çé", "日本", "x y", "LONG" * 5, "0", "nan", "{not-a
 
 GROUP_CLASSES = ["ContainerGroup", "SimPEGGroup", "UIJsonGroup", "NoTypeGroup", "DrillholeGroup"]
 OBJECT_CLASSES = ["Points", "Curve", "Surface", "Grid2D", "BlockModel", "Octree", "DrapeModel", "Drillhole", "Label", "NoTypeObject"]
+OBJECT_WEIGHTS = [5, 4, 4, 2, 2, 2, 2, 3, 1, 1]
 DATA_KINDS = ["float", "integer", "boolean", "referenced", "text", "textarr"]
 
 
